@@ -547,6 +547,7 @@ def unit_methods(unit):
                 try:
                     v = Vector(list(data))
                     r1 = getattr(v, name) if is_prop else getattr(v, name)(*args)
+                    held = None if is_prop else getattr(v, name)      # the method object itself, taken BEFORE the write and called after it
                     if wl == "int":
                         v[0] = alpha[-1]; d2[0] = alpha[-1]
                     elif wl == "int-twice":      # two writes: storage is swapped twice before the method is called again
@@ -556,6 +557,7 @@ def unit_methods(unit):
                     else:
                         v[[True] * size] = alpha[-1]; d2 = [alpha[-1]] * size
                     r2 = getattr(v, name) if is_prop else getattr(v, name)(*args)
+                    r3 = held(*args) if held is not None else None
                 except Exception as e:
                     agg.violation(V(f"method.{kind}.{name}", "history-raises-" + type(e).__name__, case, None, repr(e)[:80]))
                     continue
@@ -563,8 +565,11 @@ def unit_methods(unit):
                 want1 = [getattr(x, name) if is_prop else getattr(x, name)(*args) for x in data]
                 agg.compared += 2
                 g1, g2 = result_list(r1), result_list(r2)
+                g3 = result_list(r3) if held is not None else None
                 if g2 is None or not same_list(g2, want2):
                     agg.violation(V(f"method.{kind}.{name}", "stale-result-after-in-place-write", case, want2, g2))
+                elif held is not None and (g3 is None or not same_list(g3, want2)):
+                    agg.violation(V(f"method.{kind}.{name}", "method-object-taken-before-a-write-computes-on-the-old-elements", case, want2, g3))
                 elif g1 is None or not same_list(g1, want1):
                     agg.violation(V(f"method.{kind}.{name}", "earlier-result-changed-by-later-write", case, want1, g1))
                 else:
